@@ -125,6 +125,9 @@ def case_allocate(ctx, spec):
     amount = resolve_amount(spec, sec, cost)
     if not math.isfinite(amount):
         raise Discard("nonfinite amount")
+    if fee.spec["kind"] == "side_fixed" and not spec["integer"] and fee.spec["fb"] != fee.spec["fs"] and 0 < amount <= fee.spec["fb"] * (1 + 1e-9) + 2e-8:
+        # purchases cost more than the amount, sales less than nothing: no quantity costs exactly the amount, the fractional clause has no witness
+        raise Discard("amount inside the gap between the two ticket charges")
     cap0 = s.capital
     posb = sec.position
     val0 = sec.value
@@ -155,7 +158,7 @@ def case_allocate(ctx, spec):
     scale = max(abs(amount), abs(q) * unit, unit)
     tol = 2e-8 + 1e-9 * abs(amount) + 1e-12 * scale
     c = cost(q)
-    labels = [cls]
+    labels = [cls] + (["side_dependent_fee"] if fee.spec["kind"] in ("sell_levy", "buy_duty", "side_fixed") else [])
     # cash moves by exactly the cost of the executed quantity
     if abs(-dcap - c) > 1e-9 * max(abs(c), abs(cap0), 1.0) + 1e-9:
         raise Violation("parent cash moved by %r but cost(q=%r) is %r [%s]" % (-dcap, q, c, cls), signature="cash!=cost:" + cls)
@@ -180,7 +183,7 @@ def case_allocate(ctx, spec):
             raise Violation("not the largest quantity: traded q=%r (cost %r) but q=%r fits amount=%r (cost %r) [%s]" % (q, c, qb, amount, cost(qb), cls), signature="not-maximal:" + cls)
     else:
         if abs(c - amount) > tol:
-            f0 = fee.value(0.0, unit) if fee.spec["kind"] in ("fixed", "fixed+prop", "max") else 0.0
+            f0 = fee.value(0.0, unit) if fee.spec["kind"] in ("fixed", "fixed+prop", "max", "side_fixed") else 0.0
             if q == 0 and 0 < amount <= f0 + tol:
                 labels.append("amount<=fixed-fee")
             else:
@@ -218,7 +221,7 @@ PRICES = st.one_of(
 def fee_in_domain(draw, unit, half_spread_unit):
     """one-unit commission + half spread < 0.9 * unit price; non-decreasing in |q|"""
     room = 0.9 * unit - half_spread_unit
-    k = draw(st.sampled_from(["none", "fixed", "unit", "prop", "fixed+prop", "max"]))
+    k = draw(st.sampled_from(["none", "fixed", "unit", "prop", "fixed+prop", "max", "sell_levy", "buy_duty", "side_fixed"]))
     if k == "none" or room <= 0:
         return {"kind": "none"}
     frac = draw(st.sampled_from([1e-4, 1e-3, 0.01, 0.1, 0.5]))
@@ -230,6 +233,10 @@ def fee_in_domain(draw, unit, half_spread_unit):
         return {"kind": k, "r": min(0.5, room * frac / unit)}
     if k == "fixed+prop":
         return {"kind": k, "f": room * frac / 2, "r": min(0.25, room * frac / 2 / unit)}
+    if k in ("sell_levy", "buy_duty"):
+        return {"kind": k, "r": min(0.5, room * frac / unit)}
+    if k == "side_fixed":
+        return {"kind": k, "fb": room * frac, "fs": room * frac * draw(st.sampled_from([0.0, 0.1, 3.0])) if frac <= 0.1 else 0.0}
     return {"kind": "max", "f": room * frac, "k": room * frac * draw(st.sampled_from([0.01, 0.1, 1.0]))}
 
 
